@@ -274,6 +274,14 @@ var templates = []func(u string) string{
 			"try { throw \"t\" + base } catch h" + u + " { h" + u + ".Message = \"x\"; rec(h" + u + ".Message) }"
 	},
 	func(u string) string {
+		// large but legal requests (a channel buffer of 70 000 and of 1 100 000 items, a slice of 300 000): whether a
+		// tree grants or refuses them, what a catch block writes into the refusal stays in this run
+		return "func bz" + u + "(n) {\nbr" + u + " = 0\ntry { bc" + u + " = make(chan bool, n); br" + u + " = len(bc" + u + ") } catch be" + u + " { be" + u + ".Message = \"d:\" + be" + u + ".Message; br" + u + " = be" + u + ".Message }\nreturn br" + u + "\n}\n" +
+			"rec(bz" + u + "(70000))\nrec(bz" + u + "(1100000))\n" +
+			"func by" + u + "(n) {\nbq" + u + " = 0\ntry { bs" + u + " = make([]bool, n); bq" + u + " = len(bs" + u + ") } catch bf" + u + " { bf" + u + ".Message = hostUp(bf" + u + ".Message); throw bf" + u + " }\nreturn bq" + u + "\n}\n" +
+			"try { rec(by" + u + "(300000)) } catch bg" + u + " { rec(bg" + u + ".Message) }"
+	},
+	func(u string) string {
 		// one member expression, receivers of one type held in different ways; the order differs between configurations
 		a := "b" + u + " = make(bb" + u + ".Buffer)\nb" + u + ".WriteString(hostUp(\"w\"))\nrec(b" + u + ".String())\nrec(b" + u + ".Len())"
 		b := "for c" + u + " in [make(bb" + u + ".Buffer)] { c" + u + ".WriteString(\"x\"); rec(c" + u + ".String()) }"
